@@ -9,6 +9,7 @@ import I2N.Lemmas.TravFair2
 import I2N.Lemmas.TravDefinite
 import I2N.Model.TravMon
 import I2N.Lemmas.GenReady
+import I2N.Lemmas.GenLazy
 /-!
 # C02 — Traversal terminates and every selected test gets a definite result  (partial by design)
 
@@ -1958,5 +1959,94 @@ example : I2N.Trav.Definite.Reports fairReportedRunOfGDuo := by
   · simp only [List.mem_cons, List.not_mem_nil, or_false] at h
     rcases h with h | h | h | h <;> rw [h] <;> simp
   · rw [List.eq_of_mem_replicate h]; simp
+
+end I2N.Props.C02
+
+-- ==== pxloc ====
+/-! ## Translator tie: `is_unrolled`, `should_parse` and the one-line atoms are the Python source (`harness/pygen_pxloc.py`)
+
+`Extracted/GenLazy.lean` is regenerated on every run from the CURRENT source of `TestNode.is_unrolled`, `should_parse`,
+`is_flat`, `is_shared_root`, `is_object_root`, `get_stateful_objects` (avocado_i2n/cartgraph/node.py).  Atoms (trusted,
+the table is the docstring of `harness/pygen_pxloc.py`): a node / worker is its index; `self.incompatible_workers` = the
+workers `w` with `(f, w)` in `State.incompatible`; `self.cleanup_nodes` = the children in dictionary order;
+`self.setless_form`, `node.id`, `worker.id` = `Node.setless`, `Graph.nodeId`, `Worker.id` (the two substring tests are
+TRANSLATED, with the model's `strIn`); `self.shared_involved_workers` = `involved` (a set, iterated for an existence
+test). -/
+namespace I2N.Props.C02
+open I2N.Trav
+open I2N.Extracted.GenLazy
+
+/-- **The hand written `isUnrolled` is the Python source of `is_unrolled`** on every node the Python accepts (the shared
+root and flat nodes), for every visible graph, state, node and worker argument (`none` = "for any worker"): the order
+of the tests (shared root first, then the incompatible workers, then the search among the children), the two
+substring tests `setless_form in node.id` and `worker.id in node.id`, the `worker is None` alternative.  For a node
+that is neither the shared root nor flat the source raises `RuntimeError` — a path the model does not have (its callers
+`unexploredNodes`, `prepare`, `shouldParse` ask flat nodes only); the theorem states that too.  No hypotheses. -/
+theorem isUnrolled_matches_source (gv : Graph) (s : State) (f : Nat) (w : Option Nat) :
+    genIsUnrolled (gv.node f).sharedRoot (gv.node f).flat w ((s.incompatible.filter (·.1 == f)).map (·.2))
+        ((gv.node f).cleanup.map (·.1)) (gv.node f).setless gv.nodeId (fun v => (gv.worker v).id) =
+      if (gv.node f).sharedRoot || (gv.node f).flat then .ok (isUnrolled gv s f w) else .error "RuntimeError" := by
+  rw [I2N.GenLazy.genIsUnrolled_eq, isUnrolled]
+  have h1 := I2N.GenLazy.incompatOf_contains s f
+  have h2 := I2N.GenLazy.incompatOf_isEmpty s f
+  unfold I2N.GenLazy.incompatOf at h1 h2
+  cases (gv.node f).sharedRoot <;> cases (gv.node f).flat <;> cases w <;>
+    simp only [h1, h2, Bool.false_or, Bool.true_or, Bool.or_false, Bool.or_true, if_true, if_false, Bool.not_true,
+      Bool.not_false, Bool.false_eq_true]
+
+/-- the generated `is_unrolled` computes: a composite node raises; the shared root is unrolled; a flat node is unrolled
+for a worker when a child carries both the setless form and the worker's id, or the worker is recorded as incompatible;
+for nobody in particular as soon as one child carries the setless form -/
+example :
+    genIsUnrolled false false none [] [] "" (fun _ => "") (fun _ => "") = .error "RuntimeError" ∧
+    genIsUnrolled true false none [] [] "" (fun _ => "") (fun _ => "") = .ok true ∧
+    genIsUnrolled false true (some 1) [] [5, 6] "tutorial1" (fun c => if c == 5 then "1-net1.tutorial1" else "2-net2.other")
+      (fun v => if v == 1 then "net1" else "net2") = .ok true ∧
+    genIsUnrolled false true (some 2) [] [5, 6] "tutorial1" (fun c => if c == 5 then "1-net1.tutorial1" else "2-net2.other")
+      (fun v => if v == 1 then "net1" else "net2") = .ok false ∧
+    genIsUnrolled false true (some 2) [2] [5, 6] "tutorial1" (fun c => if c == 5 then "1-net1.tutorial1" else "2-net2.other")
+      (fun v => if v == 1 then "net1" else "net2") = .ok true ∧
+    genIsUnrolled false true none [] [5, 6] "tutorial1" (fun c => if c == 5 then "1-net1.tutorial1" else "2-net2.other")
+      (fun v => if v == 1 then "net1" else "net2") = .ok true ∧
+    genIsUnrolled false true none [] [6] "tutorial1" (fun c => if c == 5 then "1-net1.tutorial1" else "2-net2.other")
+      (fun v => if v == 1 then "net1" else "net2") = .ok false := ⟨rfl, rfl, rfl, rfl, rfl, rfl, rfl⟩
+
+/-- **The hand written `shouldParse` is the Python source of `should_parse`**: the loop over the involved workers and
+the three-part test (`is_unrolled(v) and is_cleanup_ready(v) and len(v.restrs) == 0`) that answers `False` at the first
+such worker, `True` otherwise — for every visible graph, state and flat node.  Hypothesis `hr`: the restriction lists
+given to the generated function are empty exactly for the workers the model calls unrestricted (the model keeps one bit
+per worker, `Worker.restricted`; it excludes nothing: `example` below). -/
+theorem shouldParse_matches_source (gv : Graph) (s : State) (f : Nat) (restrs : Nat → List String)
+    (hr : ∀ v, (restrs v).isEmpty = !(gv.worker v).restricted) :
+    shouldParse gv s f =
+      genShouldParse (involved gv s f) (fun v => isUnrolled gv s f (some v)) (fun v => isCleanupReady gv s f v) restrs := by
+  rw [I2N.GenLazy.genShouldParse_eq, shouldParse]
+  simp only [hr]
+
+/-- non-vacuity of `hr`: for every graph there are such lists -/
+example (gv : Graph) : ∀ v, ((fun v => if (gv.worker v).restricted then ["only x"] else []) v).isEmpty
+    = !(gv.worker v).restricted := by
+  intro v; cases h : (gv.worker v).restricted <;> simp [h]
+
+/-- the generated `should_parse` computes: parse unless an involved, unrestricted worker has the node unrolled and
+cleanup ready -/
+example :
+    genShouldParse [0, 1] (fun v => v == 1) (fun _ => true) (fun _ => []) = false ∧
+    genShouldParse [0, 1] (fun v => v == 1) (fun _ => true) (fun v => if v == 1 then ["only x"] else []) = true ∧
+    genShouldParse [0] (fun v => v == 1) (fun _ => true) (fun _ => []) = true ∧
+    genShouldParse [] (fun _ => true) (fun _ => true) (fun _ => []) = true := by decide
+
+/-- **The one-line atoms are their source**: `is_flat()` = "the node has no test objects", `is_shared_root()` = the
+Boolean parameter `shared_root` with default `False`, `is_object_root()` = "`object_root` is a parameter key",
+`get_stateful_objects(do)` = the objects with a true `<do>_state`, in object order.  These are what the exported fields
+`Node.flat`, `Node.sharedRoot`, `Node.objectRoot`, `Node.sets` / `Node.gets` stand for (the atoms `flat`, `sharedRoot`
+of the other specs); the export (`harness/travlib.py`) calls the real methods.  No hypotheses. -/
+theorem one_line_atoms_match_source (objects : List String) (getBoolean : String → Bool → Bool) (paramKeys : List String)
+    (kind : String) (objs : List Nat) (hasState : String → Nat → Bool) :
+    genIsFlat objects = objects.isEmpty ∧
+    genIsSharedRoot getBoolean = getBoolean "shared_root" false ∧
+    genIsObjectRoot paramKeys = paramKeys.contains "object_root" ∧
+    genGetStatefulObjects kind objs hasState = objs.filter (hasState kind) :=
+  ⟨I2N.GenLazy.genIsFlat_eq objects, rfl, rfl, I2N.GenLazy.genGetStatefulObjects_eq kind objs hasState⟩
 
 end I2N.Props.C02
